@@ -31,6 +31,7 @@ _real_symlink = os.symlink
 _real_access = os.access
 _real_chmod = os.chmod
 _real_utime = os.utime
+_real_mkdir = os.mkdir
 
 _DISK = None  # the installed SimDisk (one per process)
 
@@ -49,8 +50,12 @@ def _key(path):
             p = p.decode()
         except UnicodeDecodeError:
             return None
-    if isinstance(p, str) and p.startswith(ROOT):
-        return os.path.normpath(p)
+    if isinstance(p, str):
+        if p.startswith(ROOT):
+            return os.path.normpath(p)
+        if _DISK is not None and _DISK.actor != "harness" and _DISK.relative and not os.path.isabs(p):
+            # while library code runs, the process's working directory is /simfs/cwd
+            return os.path.normpath(ROOT + "cwd/" + p)
     return None
 
 
@@ -195,6 +200,9 @@ class SimDisk:
         self.short_write = short_write
         self._lcg = (io_seed * 2862933555777941757 + 3037000493) & (2**64 - 1)
         self.actor = "harness"
+        self.relative = False  # map relative paths to /simfs/cwd while library code runs
+        self.dirs = {os.path.normpath(ROOT), os.path.normpath(ROOT + "cwd"), os.path.normpath(ROOT + "cwd/~"),
+                     os.path.normpath(ROOT + "home")}
         self.n_reads = 0
         self.bytes_read = 0
         self.stat_calls = 0
@@ -260,7 +268,7 @@ class SimDisk:
         self.stat_calls += 1
         data = self.files.get(path)
         if data is None:
-            if path == os.path.normpath(ROOT):
+            if path in self.dirs:
                 return os.stat_result((_stat.S_IFDIR | 0o755, 1, 1, 2, 0, 0, 0, 0, 0, 0))
             raise FileNotFoundError(errno.ENOENT, "No such file or directory", path)
         ino = 1000 + sorted(self.files).index(path)
@@ -366,6 +374,17 @@ def _noop_for_sim(real):
     return f
 
 
+def _sim_mkdir(path, *a, **kw):
+    k = _key(path) if _DISK is not None and not isinstance(path, int) else None
+    if k is None:
+        return _real_mkdir(path, *a, **kw)
+    if k in _DISK.dirs or k in _DISK.files:
+        raise FileExistsError(errno.EEXIST, "File exists", k)
+    if os.path.dirname(k) not in _DISK.dirs:
+        raise FileNotFoundError(errno.ENOENT, "No such file or directory", k)
+    _DISK.dirs.add(k)
+
+
 def _sim_access(path, mode, *a, **kw):
     k = _key(path) if _DISK is not None and not isinstance(path, int) else None
     if k is None:
@@ -403,6 +422,7 @@ def install(disk):
         os.access = _sim_access
         os.chmod = _noop_for_sim(_real_chmod)
         os.utime = _noop_for_sim(_real_utime)
+        os.mkdir = _sim_mkdir
 
 
 def uninstall():
@@ -422,3 +442,4 @@ def uninstall():
     os.access = _real_access
     os.chmod = _real_chmod
     os.utime = _real_utime
+    os.mkdir = _real_mkdir
